@@ -8,13 +8,19 @@ All statements are about the model `TTV.Spinner` (`Model/Reactor.lean`, `Model/S
 before / inside `f`, any delays, any timeout, stop requests at any instant, any signal handlers).
 
 * `holds_model`            : the executable spec `Spec.C15.holds` is true of the model's trace (headline)
-* `C15_result`             : a run that is not refused returns/raises exactly `expected sc`
-* `C15_result_sync`, `C15_result_stopped_in_f`, `C15_result_fire`, `C15_result_timeout`, `C15_result_noresult`
-                           : the readable cases of `expected` (who wins, incl. ties at the timeout instant)
-* `C15_guards_stale`, `C15_guards_reentry` : refusals, and that they change nothing
-* `C15_clean`              : after a run: not running, no delayed calls, no selectables, stop and signals restored
+* `C15_result`             : a run that is not refused returns/raises exactly the declarative `expected sc`
+* `C15_result_sync`, `C15_result_stopped_in_f`, `C15_result_first`, `C15_result_stopped_first`
+                           : the readable cases of `expected`: `f`'s own value/exception; the first decisive call in
+                             the reactor's order (time, scheduling index) wins - the Deferred's result or `TimeoutError`;
+                             `NoResultError` iff a stop request is due strictly earlier
+* `C15_tie_scheduled_before_run`, `C15_tie_scheduled_by_f`, `C15_tie_stop_and_fire`, `C15_stop_before_fire`
+                           : the ties at one instant, for all timeouts / values
+* `C15_guards_stale`, `C15_guards_stale_only`, `C15_guards_reentry` : refusals, and that they change nothing
+* `C15_clean`, `C15_preserved_signals` : after a run: not running, no delayed calls, no selectables, stop and the
+                             SIGINT/SIGTERM/SIGCHLD handlers restored (table extracted from the code)
 * `C15_junk_exact`         : the recorded junk is exactly what was left over
-* `C15_bounded`, `C15_loop_terminates` : the run consumes at most `timeout` of virtual time and its loop ends by a crash
+* `C15_bounded`, `C15_loop_ends_by_crash` : the run consumes at most `timeout` of virtual time, its loop ends by a crash
+* `C15_history_idle`       : all of it at every step of every history
 -/
 namespace TTV.Props.C15
 open TTV.Reactor TTV.Spinner TTV.Spec.C15
